@@ -115,7 +115,16 @@ impl<'a> RefName<'a> {
     pub(crate) fn from_node(xot: &'a Xot, node: Node, name_id: NameId) -> Result<Self, Error> {
         let namespace_id = xot.namespace_for_name(name_id);
         let prefix_id = if namespace_id != xot.no_namespace() {
-            xot.prefix_for_namespace(node, namespace_id)
+            let prefix_id = if xot.is_attribute_node(node) {
+                // an attribute name without prefix is in no namespace, so the
+                // default namespace cannot be used for an attribute
+                xot.namespaces_in_scope(node)
+                    .find(|(prefix_id, ns)| *ns == namespace_id && *prefix_id != xot.empty_prefix())
+                    .map(|(prefix_id, _)| prefix_id)
+            } else {
+                xot.prefix_for_namespace(node, namespace_id)
+            };
+            prefix_id
                 .ok_or_else(|| Error::MissingPrefix(xot.namespace_str(namespace_id).to_string()))?
         } else {
             xot.empty_prefix()
